@@ -68,6 +68,8 @@ def draw_ord_fields(rng, td, mode, explicit_rank_p=0.5):
                     req["method"] = gen.METHOD_LEAVES.index(f.ty)
                 else:
                     req["ignore"] = True
+            if req["ignore"] and req["method"] is None and f.ty in gen.METHOD_LEAVES and rng.random() < 0.2:
+                req["method"] = gen.METHOD_LEAVES.index(f.ty)          # both: a field switched off that still names its method
             if rng.random() < explicit_rank_p:
                 req["rank"] = ranks[idx] * (10 ** 12 if big else 1)
             reqs.append(req)
